@@ -4376,7 +4376,10 @@ def _parse_simple_lines(
         try:
             unknown_stmt = ast.parse(line).body
         except SyntaxError:
-            unknown_stmt = None
+            # Not a statement of its own: the header of a block this parser does
+            # not handle ('with', 'class', 'for x in items', a loop's 'else:',
+            # 'finally:', a decorator ...).
+            raise ValueError(f"unsupported statement: {line}") from None
         if unknown_stmt:
             first = unknown_stmt[0]
             harmless = isinstance(
@@ -4412,9 +4415,15 @@ def _parse_program(src: str) -> Program:
     # several physical lines carry no meaning for the device and are blanked out;
     # any other simple statement that spans several lines is rejected (it would
     # otherwise be skipped fragment by fragment without a diagnostic).
+    simple_statement_lines: Set[int] = set()
     for stmt in ast.walk(tree):
         if not isinstance(stmt, ast.stmt) or hasattr(stmt, "body"):
             continue
+        if stmt.lineno in simple_statement_lines:
+            raise ValueError(
+                f"line {stmt.lineno}: several statements on one line are not supported"
+            )
+        simple_statement_lines.add(stmt.lineno)
         end_lineno = getattr(stmt, "end_lineno", None) or stmt.lineno
         if end_lineno == stmt.lineno:
             continue
